@@ -67,6 +67,7 @@ type Ctx struct {
 	recForms [][2]string
 	lateAxioms []string
 	lateBox  []string
+	heapBound map[string]string
 	preludeLen int
 	declared map[string]bool
 	cmds     []string
@@ -88,7 +89,7 @@ type Ctx struct {
 }
 
 func newCtx(prog *Program, mode Mode, pkg *types.Package, fname string) *Ctx {
-	c := &Ctx{prog: prog, mode: mode, pkg: pkg, declared: map[string]bool{}, tags: map[string]int{}, strLits: map[string]string{}, specDone: map[string]*specInst{}, fname: fname, assumed: map[string]bool{}, lemmasUsed: map[string]bool{}, globals: map[string]bool{}, heapSorts: map[string]string{}, defs: map[string]string{}, heapDefs: map[string]heapDef{}, arrDefs: map[string]arrDef{}}
+	c := &Ctx{prog: prog, mode: mode, pkg: pkg, declared: map[string]bool{}, tags: map[string]int{}, strLits: map[string]string{}, specDone: map[string]*specInst{}, fname: fname, assumed: map[string]bool{}, lemmasUsed: map[string]bool{}, globals: map[string]bool{}, heapSorts: map[string]string{}, defs: map[string]string{}, heapDefs: map[string]heapDef{}, arrDefs: map[string]arrDef{}, heapBound: map[string]string{}}
 	c.prelude()
 	return c
 }
